@@ -329,8 +329,10 @@ def range_around_float(x, i):
   # last i bits of the precision. So we shift the mantissa left by (52-i) bits, round down
   # (zeroing out remaining i bits), then shift back.
   m, e = math.frexp(x)
-  mf = math.floor(math.ldexp(m, 53 - i))
-  exp = e + i - 53
+  # Subnormal floats (below 2^-1022) have fewer bits of precision: consecutive ones are 2^-1074
+  # apart regardless of their exponent.
+  exp = max(e - 53, -1074) + i
+  mf = math.floor(math.ldexp(x, -exp))
   return (math.ldexp(mf, exp), math.ldexp(mf + 1, exp))
 
 
